@@ -51,7 +51,7 @@ Definition pin_fingerprints : list (string * string) := [
   ("ImageBatch.grid_"%string, "dbcef7b6de6afd286b06"%string);
   ("ImageBatch.__len__"%string, "a38c3cc6289bad9442a6"%string);
   ("ImageBatch.__getitem__"%string, "97eb8cc34d103d92d625"%string);
-  ("ImageBatch.__iter__"%string, "2c1cc4f9d679bd2cf7cf"%string);
+  ("ImageBatch.__iter__"%string, "83881025e2e72e66310f"%string);
   ("ImageBatch.narrow"%string, "fc8d8f3524df9ef19b14"%string);
   ("Image.__init__"%string, "af9e2701fa57f8a4a40e"%string);
   ("Image._make_instance"%string, "89631b5d671a6c59fc9c"%string);
